@@ -237,3 +237,62 @@ func (g *Gen) Bootstrap(e *eng.Engine, refresh func()) {
 	ex("resolver", &data.MsgDefineResolver{Definer: A[1], ResolverUrl: "https://boot.example/b", Public: true})
 	refresh()
 }
+
+// BootstrapWhale adds the deterministic extreme-magnitude segment (very large totals): two puts of
+// 9999999999999999999999999999.999999 credits into one basket (token total beyond 34 significant
+// digits) and a sell order whose quantity × ask needs more than 34 significant digits, partially bought.
+func (g *Gen) BootstrapWhale(e *eng.Engine, refresh func()) {
+	A := g.A
+	ex := func(tag string, msgs ...sdk.Msg) *eng.TxRec {
+		r := e.Exec(eng.Tx{Msgs: msgs, Tag: "whale/" + tag})
+		refresh()
+		return r
+	}
+	if len(g.V.ProjectList) == 0 {
+		return
+	}
+	p := g.V.ProjectList[0]
+	c := g.V.Classes[p.ClassKey]
+	if c == nil {
+		return
+	}
+	iss := sortedKeys(g.V.Issuers[c.Key])
+	if len(iss) == 0 {
+		return
+	}
+	big1 := "9999999999999999999999999999.999999"
+	var denoms []string
+	for k := 0; k < 2; k++ {
+		s := time.Date(2015+k, 3, 1, 0, 0, 0, 0, time.UTC)
+		en := time.Date(2016+k, 3, 1, 0, 0, 0, 0, time.UTC)
+		r := ex("batch", &basetypes.MsgCreateBatch{Issuer: iss[0], ProjectId: p.Id, Metadata: "whale", StartDate: &s, EndDate: &en, Open: true,
+			Issuance: []*basetypes.BatchIssuance{{Recipient: A[0], TradableAmount: big1}, {Recipient: A[3], TradableAmount: "5000000000000000000000000000.5"}}})
+		if r != nil && r.OK {
+			denoms = append(denoms, r.Resps[0].(*basetypes.MsgCreateBatchResponse).BatchDenom)
+		}
+	}
+	var bk string
+	for _, b := range g.V.BasketList {
+		if b.CreditTypeAbbrev == c.CreditTypeAbbrev && g.V.BasketClasses[b.Id][c.Id] && b.DateCriteria == nil {
+			bk = b.BasketDenom
+			break
+		}
+	}
+	for _, d := range denoms {
+		if bk != "" {
+			ex("put", &baskettypes.MsgPut{Owner: A[0], BasketDenom: bk, Credits: []*baskettypes.BasketCredit{{BatchDenom: d, Amount: big1}}})
+		}
+	}
+	if bk != "" {
+		ex("take", &baskettypes.MsgTake{Owner: A[0], BasketDenom: bk, Amount: "1234567890123456789012345678901", RetireOnTake: false})
+	}
+	if len(denoms) > 0 {
+		ask := sdk.Coin{Denom: "uatom", Amount: sdk.NewIntFromBigInt(ref.Pow10(28)).AddRaw(7)}
+		r := ex("sell", &markettypes.MsgSell{Seller: A[3], Orders: []*markettypes.MsgSell_Order{{BatchDenom: denoms[0], Quantity: "1000000000000.000001", AskPrice: &ask, DisableAutoRetire: true}}})
+		if r != nil && r.OK {
+			id := r.Resps[0].(*markettypes.MsgSellResponse).SellOrderIds[0]
+			mf := sdk.Coin{Denom: "uatom", Amount: sdk.NewIntFromBigInt(ref.Pow10(44))}
+			ex("buy", &markettypes.MsgBuyDirect{Buyer: A[5], Orders: []*markettypes.MsgBuyDirect_Order{{SellOrderId: id, Quantity: "333333333333.333333", BidPrice: &ask, DisableAutoRetire: true, MaxFeeAmount: &mf}}})
+		}
+	}
+}
